@@ -247,21 +247,21 @@ func ruleC09_3(c *Ctx, r *Rep) {
 					r.Fail("C09.3", key, ci.Pos(), "wake-up started in a goroutine: not ordered after the commit")
 					continue
 				}
-				commit, isHook := commitHook(f)
-				if !isHook && calledOnlyAfterCommit(c, f) {
-					hooks[f] = true
-					r.OK("C09.3", key, ci.Pos(), "callback invoked only from a commit hook after Commit returned nil")
-					continue
-				}
-				if !isHook {
-					r.Fail("C09.3", key, ci.Pos(), "waiters are woken outside an on-commit hook: a consumer can be notified of a change that is later rolled back (or before it is visible)")
-					continue
-				}
-				hooks[f] = true
-				r.Check("C09.3", key, ci.Pos(), afterSuccessfulCommit(commit, in), "wake only after Commit returned nil", "the hook wakes waiters without checking that the wrapped Commit returned nil (or before calling it)")
-				okPass, whyPass := hookPassesCommitError(f, commit)
-				r.Check("C09.3", "C09.3:commit-error-passed-on@"+c.Key(f), commit.Pos(), okPass, "a failed Commit is reported by the hook", whyPass)
+				// shape-independent: the wake runs only after the wrapped Commit of a commit hook returned nil
+				okPost := postCommit(c, in, 0)
+				r.Check("C09.3", key, ci.Pos(), okPost, "wake only after the wrapped Commit returned nil", "waiters are woken outside an on-commit hook, or without checking that the wrapped Commit returned nil (or before calling it): a consumer can be notified of a change that is later rolled back (or before it is visible)")
 			}
+		}
+	}
+	// every function that wraps a Commit passes a failure on
+	for _, f := range c.Funcs {
+		if c.PkgOf(f) != "actions" || c.testSupport(f) || c.FnInControl(f) {
+			continue
+		}
+		if commit := commitInvokeIn(f); commit != nil {
+			hooks[f] = true
+			okPass, whyPass := hookPassesCommitError(f, commit)
+			r.Check("C09.3", "C09.3:commit-error-passed-on@"+c.Key(f), commit.Pos(), okPass, "a failed Commit is reported by the hook", whyPass)
 		}
 	}
 	for name := range wakeFns {
